@@ -46,8 +46,12 @@ def chunk_forms(pre, cyc, toks, join_n):
     cc = [toks[t] for t in cyc]
     whole = b"".join(cc)
     forms = [("per-token", pc, cc), ("per-cycle", pc, [whole])]
+    seen = {1}
     for n in join_n:
-        forms.append((f"per-{n}-cycles", pc, [whole * n]))
+        n_eff = max(1, min(n, (64 << 10) // max(len(whole), 1)))  # chunks of at most 64 KiB
+        if n_eff not in seen:
+            seen.add(n_eff)
+            forms.append((f"per-{n}-cycles", pc, [whole * n_eff]))
     return forms
 
 
